@@ -55,6 +55,8 @@ func alphabet(http bool) []op {
 			a = append(a, op{"delete", t, tag})
 		}
 	}
+	// an If-Match value that is not a well-formed entity tag list (it can match nothing)
+	a = append(a, op{"update", "T1", "junk"}, op{"delete", "T1", "junk"})
 	a = append(a, op{K: "expire"}, op{K: "tick", A: "1h"}, op{K: "tick", A: "8d"},
 		op{K: "list", A: "g"}, op{K: "get", T: "T1"}, op{K: "get", T: "T2"})
 	for _, e := range []string{"drop-line", "add", "replace", "rmfile", "garbage", "restore-older"} {
@@ -390,6 +392,8 @@ func (w *seqWorld) pickTag(kind, real string) string {
 			return w.slot
 		}
 		return bogusTag
+	case "junk":
+		return `181-1790447557811340425; q=1`
 	}
 	return ""
 }
@@ -539,7 +543,12 @@ func (w *seqWorld) update(x op) (bool, *core.Violation) {
 	case "notexist":
 		if w.http {
 			// PUT of a missing token: creating it (201) or refusing it are
-			// both within the statement
+			// both within the statement -- unless the request is conditional
+			// on a tag: whatever tag it names, the token it was read from is gone
+			if r.class == "" && tag != "" {
+				return false, viol("stale-tag-accepted/update-missing",
+					fmt.Sprintf("PUT of %s with If-Match %s was acknowledged although the token does not exist (any more): a conditional edit went through after the token had been removed (history %s)", x.T, tag, w.hist))
+			}
 			if r.class == "" {
 				w.model[real] = nt
 				w.setBind(x.T, real)
